@@ -8,7 +8,9 @@
 // (ReindexStates(dst, functor), CopyTransitionsFrom).  Each handle has a shadow *value* (set of rules,
 // set of final states) that is updated with value semantics; after every step every handle is read back (iteration,
 // final states, ContainsTransition) and compared with its shadow, results of operations are compared with a pure function
-// of the operand shadows, and the kept Union result is re-read and compared with its snapshot.
+// of the operand shadows (RemoveUnreachableStates / UnionDisjointStates, whose contract is only language-level: with a lower
+// and an upper bound computed from the operand shadows, the value actually read becoming the shadow - see adopt()), and the
+// kept Union result is re-read and compared with its snapshot.
 // Solver variables: presence bits of the initial automaton in handle 0 (first INITR universe rules) + its final states
 // (PRE=3: of two initial automata over disjoint state sets), and one call code per step.
 #include <vata/explicit_tree_aut.hh>
@@ -110,6 +112,28 @@ static void same(const Aut& a, const RS::Val& v, int id)
 #endif
 }
 
+// Result of an operation whose contract is stated on the level of languages (C03: trimming keeps the language and leaves
+// no unreachable state; C02: UnionDisjointStates accepts the union): the property C11 only asks that the result is a function
+// of the operand values and that it stays what it was.  So the result is *read* and becomes the shadow value of its handle
+// (every later step compares the handle with this snapshot); what is demanded of it here is only what every correct
+// implementation yields: nothing invented (got <= hi) and nothing lost that an accepting run needs (lo <= got).  Items in
+// between (final states without rules, rules that can never be part of an accepting run) may be kept or dropped.
+// -DSTRICT_IMPL (never defined by the registry) restores the comparison with the exact structure the current sources build.
+static RS::Val adopt(const Aut& a, RS::Val lo, const RS::Val& hi, int id)
+{
+#if defined(STRICT_IMPL) && !defined(VS_SELFTEST_2)
+  lo = hi;
+#endif
+  const unsigned NR = RS::count(); RS::Val got; got.clear();
+  bool ok = RS::readRules(a, got.pres); bool inside = true;
+  for (size_t q : a.GetFinalStates()) { bool hit = false; for (unsigned s = 0; s < NS; ++s) { hit |= q == s; got.fin |= (unsigned)(q == s) << s; } inside &= hit; }
+  CHECK(ok && inside, id + 1);
+  for (unsigned i = 0; i < NR; ++i) { CHECK(!lo.pres[i] || got.pres[i], id + 2); CHECK(!got.pres[i] || hi.pres[i], id + 3); }
+  CHECK((lo.fin & ~got.fin) == 0, id + 4); CHECK((got.fin & ~hi.fin) == 0, id + 5);
+  return got;
+}
+static RS::Val unionOf(const RS::Val& a, const RS::Val& b) { RS::Val r = a; for (unsigned i = 0; i < RS::count(); ++i) r.pres[i] = a.pres[i] | b.pres[i]; r.fin = a.fin | b.fin; return r; }
+
 // read the Union result through its translation maps: which universe rules of the left / right operand it contains
 static bool readUnion(bool* L, bool* R, unsigned& finL, unsigned& finR)
 {
@@ -167,15 +191,17 @@ static void apply(OpKind op, unsigned i, unsigned j, unsigned a)
   case FINAL: h[i]->SetStateFinal(a); val[i].fin |= 1u << a; break;
   case ERASE: h[i]->EraseFinalStates(); val[i].fin = 0; break;
   case CLEAR: h[i]->Clear(); val[i].clear(); break;
-  case UNREACH: { Aut* n = new Aut(h[i]->RemoveUnreachableStates()); RS::Val v = RS::withoutUnreachable(val[i]);
+  // RemoveUnreachableStates: between the part that takes part in accepting runs and "all rules with a reachable parent, all
+  // final states" (what the current sources return); e.g. final states without rules may legally be dropped
+  case UNREACH: { Aut* n = new Aut(h[i]->RemoveUnreachableStates()); RS::Val lo = RS::withoutUseless(val[i]), hi = RS::withoutUnreachable(val[i]);
 #ifdef VS_SELFTEST_2
-    v = val[i];                            // seeded wrong oracle: nothing is removed
+    lo = hi = val[i];                      // seeded wrong oracle: nothing is removed
 #endif
-    replace(j, n); val[j] = v; break; }
+    RS::Val v = adopt(*n, lo, hi, 40); replace(j, n); val[j] = v; break; }
   case USELESS: { Aut* n = new Aut(h[i]->RemoveUselessStates()); RS::Val v = RS::withoutUseless(val[i]); replace(j, n); val[j] = v; break; }
   case UNIOND:   // precondition of UnionDisjointStates: disjoint state sets (otherwise the call is skipped)
-    if ((val[i].used() & val[j].used()) == 0) { Aut* n = new Aut(Aut::UnionDisjointStates(*h[i], *h[j])); replace(j, n);
-      for (unsigned r = 0; r < NR; ++r) val[j].pres[r] = val[j].pres[r] | val[i].pres[r]; val[j].fin |= val[i].fin; }
+    if ((val[i].used() & val[j].used()) == 0) { Aut* n = new Aut(Aut::UnionDisjointStates(*h[i], *h[j]));
+      RS::Val v = adopt(*n, unionOf(RS::withoutUseless(val[i]), RS::withoutUseless(val[j])), unionOf(val[i], val[j]), 50); replace(j, n); val[j] = v; }
     break;
   case UNION: {
     delete ures; delete umapL; delete umapR; umapL = new AutBase::StateToStateMap(); umapR = new AutBase::StateToStateMap();
